@@ -695,6 +695,18 @@ func (ex *Exec) invokeIntrinsic(recv Iface, m *types.Func, args []Value) func() 
 						return nil
 					}
 				}
+				if name == "GetOption" {
+					return func() Value {
+						z := ex.zero(sig.Results().At(0).Type()).(*Struct)
+						st := sig.Results().At(0).Type().Underlying().(*types.Struct)
+						for i := 0; i < st.NumFields(); i++ {
+							if st.Field(i).Name() == "Level" {
+								z.F[i] = ex.st.Const(z.F[i].(*Term).W, 1) // LevelDebug, the default configuration
+							}
+						}
+						return z
+					}
+				}
 				return func() Value {
 					res := sig.Results()
 					switch res.Len() {
